@@ -622,25 +622,43 @@ func c19r8(c *Ctx) {
 	calls := callsIn(fn, ir)
 	c.Check("Webhook.inject calls injectRequired", fn.Pos(), len(calls) >= 1, "no call of injectRequired in Webhook.inject")
 	for _, call := range calls {
-		hit := pathAvoiding(fn, nil, isNsTest, func(ins ssa.Instruction) bool { return ins == call.(ssa.Instruction) })
+		hit := pathAvoiding(fn, nil, deepMust(isNsTest, 1), func(ins ssa.Instruction) bool { return ins == call.(ssa.Instruction) })
 		c.Check("the injection decision is taken after the pod's namespace was defaulted from the request", call.Pos(), hit == nil,
 			"injectRequired can be reached before the pod's empty metadata.namespace was filled in from the admission request: for controller-created pods the ignored-namespace and namespace-policy checks then compare against \"\", so a pod in kube-system is injected (and the same pod with its namespace spelled out is not - same inputs, different decision)")
 	}
 	// the defaulting store takes the request's namespace
 	n := 0
-	eachInstr(fn, func(ins ssa.Instruction) {
-		st, ok := ins.(*ssa.Store)
-		if !ok {
-			return
-		}
-		fa, ok := st.Addr.(*ssa.FieldAddr)
-		if !ok || fieldVar(fa.X.Type(), fa.Field).Name() != "Namespace" {
-			return
-		}
-		if f := fieldOfLoad(st.Val); f != nil && f.Name() == "Namespace" {
-			n++
-		}
-	})
+	countStores := func(f *ssa.Function, fromParam func(*ssa.Parameter) bool) {
+		eachInstr(f, func(ins ssa.Instruction) {
+			st, ok := ins.(*ssa.Store)
+			if !ok {
+				return
+			}
+			fa, ok := st.Addr.(*ssa.FieldAddr)
+			if !ok || fieldVar(fa.X.Type(), fa.Field).Name() != "Namespace" {
+				return
+			}
+			if f := fieldOfLoad(st.Val); f != nil && f.Name() == "Namespace" {
+				n++
+			}
+			if par, ok := st.Val.(*ssa.Parameter); ok && fromParam != nil && fromParam(par) {
+				n++
+			}
+		})
+	}
+	countStores(fn, nil)
+	for _, h := range helperCalls(fn) {
+		h := h
+		countStores(h.callee, func(par *ssa.Parameter) bool {
+			pi := paramIndex(h.callee, par)
+			args := h.site.Common().Args
+			if pi < 0 || pi >= len(args) {
+				return false
+			}
+			f := fieldOfLoad(args[pi])
+			return f != nil && f.Name() == "Namespace"
+		})
+	}
 	c.Check("the pod's namespace is defaulted from the request", fn.Pos(), n >= 1, "no store pod.Namespace = req.Namespace in Webhook.inject")
 	c.Floor(3)
 }
